@@ -538,7 +538,8 @@ INT_SOMA = (0.5, -0.25, 1.75)  # a soma that is not on the integer lattice
 SPELLINGS_MST = ("positional", "keyword", "k_furcations (deprecated alias)", "attributes assigned after construction")
 SPELLINGS_CUNTZ = ("keyword", "attributes assigned after construction", "names passed at the call (deprecated)")
 CONTAINERS = ("float64", "float32", "list of lists", "fortran-ordered", "read-only", "int64 cloud + fractional soma", "int32 cloud + fractional soma",
-              "uint8 cloud + fractional soma")
+              "uint8 cloud + fractional soma", "float32 cloud (voxel coordinates) + fractional soma", "float32 cloud (voxel coordinates), first point is the soma")
+UNIT_EXPS = (-16, -10, 10)  # the bank in other length units (x 2^e): the rule is scale-free, the tree must be the same
 
 
 def _int_bank_ok():
@@ -581,11 +582,19 @@ def check_spellings(case, R):
     from swcgeom.transforms import PointsToCuntzMST, PointsToMST
 
     kind, sub = case[0], list(case[1])
-    R.state(kind, sub)
+    R.state(kind, sub, case[2] if len(case) > 2 else None)
     if kind == "int":
         base = [INT_BANK[i] for i in sub]  # non-negative so that unsigned containers can carry them
         pts = [INT_SOMA] + base
-        containers = [c for c in CONTAINERS if "cloud" in c]
+        containers = [c for c in CONTAINERS if "cloud" in c and not c.endswith("first point is the soma")]
+    elif kind == "int-nosoma":
+        pts = [INT_BANK[i] for i in sub]
+        containers = [CONTAINERS[-1]]
+    elif kind == "unit":
+        B = bank(0)
+        f_ = 2.0 ** int(case[2])
+        pts = [tuple(c_ * f_ for c_ in B[i]) for i in sub]
+        containers = ["float64"]
     else:
         B = bank(0)
         pts = [B[i] for i in sub]
@@ -595,8 +604,10 @@ def check_spellings(case, R):
     mst_len = kruskal_length(D)
 
     def inputs(cont, mode):
-        if kind == "int":
-            dt = {"int64": np.int64, "int32": np.int32, "uint8": np.uint8}[cont.split()[0]]
+        if kind in ("int", "int-nosoma"):
+            dt = {"int64": np.int64, "int32": np.int32, "uint8": np.uint8, "float32": np.float32}[cont.split()[0]]
+            if cont.endswith("first point is the soma"):
+                return np.array(pts, dtype=np.float64).astype(dt), None
             return np.array(pts[1:], dtype=np.float64).astype(dt), np.array(pts[0], dtype=np.float64)
         arr = np.array(pts, dtype=np.float64)
         P, soma = (arr.copy(), None) if mode == "first" else (arr[1:].copy(), arr[0].copy())
@@ -622,7 +633,7 @@ def check_spellings(case, R):
                     R.skip(f"reference-{why}")
                     continue
                 for sort in (True, False):
-                    for mode in (("soma",) if kind == "int" else ("first", "soma")):
+                    for mode in (("soma",) if kind == "int" else ("first",) if kind == "int-nosoma" else ("first", "soma")):
                         for cont in containers:
                             if cont == "float32":
                                 continue  # distances of float32-rounded points differ from the bank's: covered by far-float32-clouds
@@ -640,15 +651,22 @@ def check_spellings(case, R):
 
                                 ok, t = R.impl("PointsToCuntzMST", run)
                                 if ok:
-                                    got = judge(R, what, f"spelling:cuntz:{sp}:{'int-cloud' if kind == 'int' else cont}", pts, D, t, bf, k, excl, want, mst_len)
+                                    got = judge(R, what, f"spelling:cuntz:{sp}:{'int-cloud' if kind.startswith('int') else cont}", pts, D, t, bf, k, excl, want, mst_len)
                                     R.outcome(sp, cont, tuple(got) if got else None)
+                                    # the caller goes on using its arrays (refills the point buffer): the tree keeps ITS points
+                                    before_xyz = build.tags_xyz(t)
+                                    for arr in (P, soma):
+                                        if isinstance(arr, np.ndarray) and arr.flags.writeable:
+                                            arr[...] = 0
+                                    R.check(build.tags_xyz(t) == before_xyz, "tree-aliases-callers-array", lambda: f"{what}: overwriting the caller's point array changed the tree's coordinates",
+                                            f"spelling:cuntz:{sp}:{cont}:aliases-input")
                             if bf == 0:
                                 for sp in SPELLINGS_MST:
                                     P, soma = inputs(cont, mode)
                                     what = f"PointsToMST[{sp}](furcations={k}, exclude_soma={excl}, sort={sort}) on {cont}, soma {mode}"
                                     ok, t = R.impl("PointsToMST", lambda sp=sp, P=P, soma=soma: _make_mst(PointsToMST, sp, k, excl, sort)(P, soma))
                                     if ok:
-                                        judge(R, what, f"spelling:mst:{sp}:{'int-cloud' if kind == 'int' else cont}", pts, D, t, 0.0, k, excl, want, mst_len)
+                                        judge(R, what, f"spelling:mst:{sp}:{'int-cloud' if kind.startswith('int') else cont}", pts, D, t, 0.0, k, excl, want, mst_len)
 
 
 
@@ -698,6 +716,11 @@ def spaces(tier, seed):
                 yield ("float", sub)
             for sub in itertools.combinations(range(len(INT_BANK)), m - 1):
                 yield ("int", sub)
+            for sub in itertools.combinations(range(len(INT_BANK)), m):
+                yield ("int-nosoma", sub)
+            for e in UNIT_EXPS:
+                for sub in itertools.combinations(range(7), m):
+                    yield ("unit", sub, e)
 
     return [
         Space.of("spellings", gen_spellings, check_spellings,
